@@ -788,6 +788,22 @@ def _r2(idx: Index, res: Result, renderers: List[Renderer], floor: int = 120) ->
         for r_ in [x for b in leaf_br[0].body for x in ast.walk(b) if isinstance(x, ast.Return)]:
             attrs = [a for a in ast.walk(r_.value) if isinstance(a, ast.Attribute) and isinstance(a.value, ast.Name) and a.value.id == epar
                      and not (isinstance(a.ctx, ast.Load) and a.attr in ("term",))]
+            # ... nor through locals (round 10): `eq = leaf.equation; lit = repr(float(eq)); return '(' + lit + ')'` is the same splice
+            if not attrs:
+                tainted: Dict[str, ast.AST] = {}
+                changed = True
+                while changed:
+                    changed = False
+                    for a_ in [x for x in ast.walk(rr) if isinstance(x, ast.Assign) and len(x.targets) == 1 and isinstance(x.targets[0], ast.Name)]:
+                        if a_.targets[0].id in tainted or a_.targets[0].id == epar:
+                            continue
+                        srcs = [y for y in ast.walk(a_.value) if (isinstance(y, ast.Attribute) and isinstance(y.value, ast.Name) and y.value.id == epar
+                                                                   and y.attr not in ("term", "_elements", "name", "model"))
+                                or (isinstance(y, ast.Name) and y.id in tainted)]
+                        if srcs:
+                            tainted[a_.targets[0].id] = srcs[0]
+                            changed = True
+                attrs = [tainted[y.id] for y in ast.walk(r_.value) if isinstance(y, ast.Name) and y.id in tainted]
             res.check("R2", "%s: a leaf is emitted as a reference, not as its current value" % hname, not attrs, hf.loc(r_), hf.qual, norm_stmt(r_)[:80],
                       "%s splices %s into the aggregate's text when the text is built: the aggregate keeps that number when the member is "
                       "changed later (and for an arrayed stock it takes the net-flow literal instead of the level)"
